@@ -33,6 +33,7 @@ package main
 
 import (
 	"bytes"
+	"context"
 	"encoding/csv"
 	"encoding/json"
 	"fmt"
@@ -47,6 +48,7 @@ import (
 	"strconv"
 	"strings"
 	"sync"
+	"time"
 	"unicode"
 	"unicode/utf8"
 
@@ -103,10 +105,12 @@ func famUnits(mode string, args []string) error {
 			if err := json.Unmarshal(raw, &c); err != nil {
 				return fail("badcase", "%v", err)
 			}
-			if bs != "" {
-				return unBenchstat(&c, bs)
-			}
-			return unReplay(&c, classes)
+			return unGuard(func() Verdict {
+				if bs != "" {
+					return unBenchstat(&c, bs)
+				}
+				return unReplay(&c, classes)
+			})
 		})
 	case "record":
 		return unRecord(args)
@@ -114,12 +118,43 @@ func famUnits(mode string, args []string) error {
 	return fmt.Errorf("units: unknown mode %q", mode)
 }
 
+// unGuard runs one case under a watchdog.  Code under test that does not return is
+// reported with signature "hang"; the spinning goroutine cannot be stopped, so the
+// cases after it are not run (they pass with a note - the check is red anyway).
+const unHangTimeout = 20 * time.Second
+
+var unHung bool
+
+func unGuard(f func() Verdict) Verdict {
+	if unHung {
+		v := pass()
+		v.Detail = "not run: an earlier case did not return"
+		return v
+	}
+	ch := make(chan Verdict, 1)
+	go func() {
+		defer func() {
+			if r := recover(); r != nil {
+				ch <- Verdict{OK: false, Signature: "panic", Detail: fmt.Sprint("panic: ", r)}
+			}
+		}()
+		ch <- f()
+	}()
+	select {
+	case v := <-ch:
+		return v
+	case <-time.After(unHangTimeout):
+		unHung = true
+		return fail("hang", "the case did not return within %v (unit symbols are in the case)", unHangTimeout)
+	}
+}
+
 // ------------------------------------------------------------ concretisation
 
 // runes standing for the abstract symbol "x" (any character that is neither a
 // separator nor one of n, s, M, B) and for " " (any Unicode space)
 var unOtherRunes = []string{"x", "o", "p", "é", "µ", "字", "N", "S", "m", "b", "k", "%", "_", "2", "😀", "i"}
-var unSpaceRunes = []string{" ", "\t", " ", " ", "　", "\n", "\r", "\u0085"}
+var unSpaceRunes = []string{" ", "\t", "\u00a0", "\u2003", "\u3000", "\n", "\r", "\u0085"}
 
 type unConc struct {
 	rng    *rand.Rand
@@ -172,7 +207,7 @@ var unClassGen = map[string]func(r *rand.Rand) float64{
 		case 0:
 			return float64(1 + r.Intn(9))
 		case 1:
-			return float64(r.Int63n(1 << 40))*float64(1+r.Intn(3)) + 1
+			return float64(r.Int63n(1<<40))*float64(1+r.Intn(3)) + 1
 		}
 		v := (0.5 + r.Float64()) * math.Pow(10, float64(r.Intn(160)-80))
 		if r.Intn(3) == 0 {
@@ -256,7 +291,7 @@ func unScaledOK(v float64, e int, got float64, ulps int64) bool {
 		return false
 	}
 	r := new(big.Rat).SetFloat64(v)
-	p := new(big.Rat).SetInt(new(big.Int).Exp(unTen, big.NewInt(int64(abs(e))), nil))
+	p := new(big.Rat).SetInt(new(big.Int).Exp(unTen, big.NewInt(int64(unAbs(e))), nil))
 	if e < 0 {
 		r.Quo(r, p)
 	} else {
@@ -270,7 +305,7 @@ func unScaledOK(v float64, e int, got float64, ulps int64) bool {
 	return d <= ulps
 }
 
-func abs(x int) int {
+func unAbs(x int) int {
 	if x < 0 {
 		return -x
 	}
@@ -587,9 +622,17 @@ func unBenchstat(c *unCase, bin string) Verdict {
 	}
 	defer os.Remove(path)
 	var out, errb bytes.Buffer
-	cmd := exec.Command(bin, "-format", "csv", path)
+	cctx, cancel := context.WithTimeout(context.Background(), unHangTimeout*3/4)
+	defer cancel()
+	cmd := exec.CommandContext(cctx, bin, "-format", "csv", path)
 	cmd.Stdout, cmd.Stderr = &out, &errb
-	if err := cmd.Run(); err != nil {
+	err := cmd.Run()
+	if cctx.Err() != nil {
+		v := fail("hang", "benchstat did not finish within %v on %q", unHangTimeout*3/4, text)
+		v.Concrete = text
+		return v
+	}
+	if err != nil {
 		v := fail("benchstat-fails", "benchstat on %q: %v: %s", text, err, errb.String())
 		v.Concrete = text
 		return v
@@ -627,7 +670,7 @@ func unBenchstat(c *unCase, bin string) Verdict {
 
 // tokens of Units_trace.tla: separators and n, s, M, B, e, c ... as themselves,
 // blanks as " ", "sp1".., every other rune / invalid byte as an opaque token
-var unSpaceTok = map[rune]string{' ': " ", '\t': "sp1", ' ': "sp2", ' ': "sp3", '　': "sp4"}
+var unSpaceTok = map[rune]string{' ': " ", '\t': "sp1", '\u00a0': "sp2", '\u2003': "sp3", '\u3000': "sp4"}
 
 func unTokens(s string) []string {
 	out := []string{}
@@ -651,7 +694,7 @@ func unTokens(s string) []string {
 }
 
 var unRecPieces = []string{"ns", "MB", "ns", "MB", "n", "s", "M", "B", "sec", "op", "x", "tons", "MBs", "nsec", "kB", "é", "µs", "字", "😀", "\xff", "%", "_", "2", "bytes", "NS", "mb"}
-var unRecSeps = []string{"/", "*", "-", "/", "*", "-", " ", "\t", " ", " ", "　", "//", "*/", "/*", "--", " /", "- "}
+var unRecSeps = []string{"/", "*", "-", "/", "*", "-", " ", "\t", "\u00a0", "\u2003", "\u3000", "//", "*/", "/*", "--", " /", "- "}
 
 func unRandomUnit(r *rand.Rand, blanks bool) string {
 	for {
@@ -684,7 +727,7 @@ func unObservedExp(factor float64) int {
 		return 99999
 	}
 	e := int(math.Round(math.Log10(factor)))
-	p := new(big.Rat).SetInt(new(big.Int).Exp(unTen, big.NewInt(int64(abs(e))), nil))
+	p := new(big.Rat).SetInt(new(big.Int).Exp(unTen, big.NewInt(int64(unAbs(e))), nil))
 	if e < 0 {
 		p.Inv(p)
 	}
@@ -697,6 +740,28 @@ func unObservedExp(factor float64) int {
 		return 99999
 	}
 	return e
+}
+
+// a panic inside the code under test becomes an observation, not a dead recorder
+const unPanicMark = "\x00panic: "
+
+func unSafeTidy(v float64, unit string) (tv float64, tu string) {
+	defer func() {
+		if r := recover(); r != nil {
+			tv, tu = math.NaN(), unPanicMark+fmt.Sprint(r)
+		}
+	}()
+	return benchunit.Tidy(v, unit)
+}
+
+func unSafeReadLine(fails *unFails, unit string, vals []*unVal) (res *benchfmt.Result) {
+	defer func() {
+		if r := recover(); r != nil {
+			fails.add("panic", "reading a line with unit %q: panic: %v", unit, r)
+			res = nil
+		}
+	}()
+	return unReadLine(fails, unit, vals)
 }
 
 type unTidyObs struct {
@@ -722,13 +787,39 @@ func unRecord(args []string) error {
 		classes = append(classes, c)
 	}
 	sort.Strings(classes)
-	const G = 8
 	for done := 0; done < n; {
 		// a batch of fresh units, tidied from G goroutines in different orders, three rounds each
 		batch := make([]string, 0, 40)
 		for len(batch) < 40 && done+len(batch) < n {
 			batch = append(batch, unRandomUnit(rng, rng.Intn(3) == 0))
 		}
+		// the batch runs under a watchdog: code under test that does not return is an
+		// observation ("hang"), after which nothing more is recorded
+		result := make(chan []map[string]interface{}, 1)
+		go func() {
+			var evs []map[string]interface{}
+			emit := func(e map[string]interface{}) { evs = append(evs, e) }
+			unRecordBatch(batch, rng, classes, emit)
+			result <- evs
+		}()
+		select {
+		case evs := <-result:
+			for _, e := range evs {
+				ew.emit(e)
+			}
+		case <-time.After(unHangTimeout):
+			ew.emit(map[string]interface{}{"ev": "tidy", "u": []string{}, "unit": []string{"hang"}, "e": 0, "calls": 0,
+				"hang": true, "raw": strings.Join(batch, "\n")})
+			return ew.close()
+		}
+		done += len(batch)
+	}
+	return ew.close()
+}
+
+func unRecordBatch(batch []string, rng *rand.Rand, classes []string, emit func(map[string]interface{})) {
+	const G = 8
+	{
 		obs := make([][]unTidyObs, G)
 		seeds := make([]int64, G)
 		for g := range seeds {
@@ -743,7 +834,7 @@ func unRecord(args []string) error {
 				o := make([]unTidyObs, 0, 3*len(batch))
 				for round := 0; round < 3; round++ {
 					for _, i := range r.Perm(len(batch)) {
-						f, tu := benchunit.Tidy(1, batch[i])
+						f, tu := unSafeTidy(1, batch[i])
 						o = append(o, unTidyObs{batch[i] + "\x00" + tu, f})
 					}
 				}
@@ -777,15 +868,19 @@ func unRecord(args []string) error {
 			return keys[i].bits < keys[j].bits
 		})
 		for _, k := range keys {
-			ew.emit(map[string]interface{}{"ev": "tidy", "u": unTokens(k.in), "unit": unTokens(k.out),
-				"e": unObservedExp(math.Float64frombits(k.bits)), "calls": count[k], "raw": k.in})
+			emit(map[string]interface{}{"ev": "tidy", "u": unTokens(k.in), "unit": unTokens(k.out),
+				"e": unObservedExp(math.Float64frombits(k.bits)), "calls": count[k], "raw": k.in,
+				"panic": strings.HasPrefix(k.out, unPanicMark)})
 		}
 		// reader, for the units a line can carry
 		for _, unit := range batch {
 			if strings.IndexFunc(unit, unicode.IsSpace) >= 0 {
 				continue
 			}
-			factor, _ := benchunit.Tidy(1, unit)
+			factor, tu := unSafeTidy(1, unit)
+			if strings.HasPrefix(tu, unPanicMark) {
+				continue // already logged as a tidy event
+			}
 			e := unObservedExp(factor)
 			vals := make([]*unVal, 0, len(classes))
 			for _, cls := range classes {
@@ -795,10 +890,11 @@ func unRecord(args []string) error {
 				vals = append(vals, &unVal{cls: cls, v: pv, text: text})
 			}
 			var fails unFails
-			res := unReadLine(&fails, unit, vals)
+			res := unSafeReadLine(&fails, unit, vals)
 			if res == nil {
-				ew.emit(map[string]interface{}{"ev": "read", "u": unTokens(unit), "cls": "none", "unit": []string{"?"}, "orig": "other",
-					"e": e, "scaled": false, "asbuilt": false, "raw": unit, "line": fails[0].detail})
+				emit(map[string]interface{}{"ev": "read", "u": unTokens(unit), "cls": "none", "unit": []string{"?"}, "orig": "other",
+					"e": e, "scaled": false, "asbuilt": false, "raw": unit, "line": fails[0].detail,
+					"panic": fails[0].sig == "panic"})
 				continue
 			}
 			for i, x := range vals {
@@ -811,12 +907,10 @@ func unRecord(args []string) error {
 				}
 				// the as-built reader keeps the written pair when value*factor == value
 				asbuilt := v.Unit == unit && v.OrigUnit == "" && sameFloat(v.Value, x.v) && x.v*factor == x.v
-				ew.emit(map[string]interface{}{"ev": "read", "u": unTokens(unit), "cls": x.cls, "unit": unTokens(v.Unit), "orig": orig,
+				emit(map[string]interface{}{"ev": "read", "u": unTokens(unit), "cls": x.cls, "unit": unTokens(v.Unit), "orig": orig,
 					"e": e, "scaled": unScaledOK(x.v, e, v.Value, 12), "asbuilt": asbuilt, "raw": unit,
 					"line": "BenchmarkX 1 " + x.text + " " + unit, "stored": unValueStr(v)})
 			}
 		}
-		done += len(batch)
 	}
-	return ew.close()
 }
